@@ -73,3 +73,15 @@ Properties/C07.vos Properties/C07.vok Properties/C07.required_vos: Properties/C0
 Properties/C08.vo Properties/C08.glob Properties/C08.v.beautified Properties/C08.required_vo: Properties/C08.v Base.vo Prim.vo
 Properties/C08.vio: Properties/C08.v Base.vio Prim.vio
 Properties/C08.vos Properties/C08.vok Properties/C08.required_vos: Properties/C08.v Base.vos Prim.vos
+Model/Parse.vo Model/Parse.glob Model/Parse.v.beautified Model/Parse.required_vo: Model/Parse.v Base.vo Prim.vo Model/Digit.vo Model/Core.vo Model/Shift.vo Model/AddSub.vo Model/Bits.vo
+Model/Parse.vio: Model/Parse.v Base.vio Prim.vio Model/Digit.vio Model/Core.vio Model/Shift.vio Model/AddSub.vio Model/Bits.vio
+Model/Parse.vos Model/Parse.vok Model/Parse.required_vos: Model/Parse.v Base.vos Prim.vos Model/Digit.vos Model/Core.vos Model/Shift.vos Model/AddSub.vos Model/Bits.vos
+Model/ParseRun.vo Model/ParseRun.glob Model/ParseRun.v.beautified Model/ParseRun.required_vo: Model/ParseRun.v Base.vo Model/Parse.vo
+Model/ParseRun.vio: Model/ParseRun.v Base.vio Model/Parse.vio
+Model/ParseRun.vos Model/ParseRun.vok Model/ParseRun.required_vos: Model/ParseRun.v Base.vos Model/Parse.vos
+Run/RunC10.vo Run/RunC10.glob Run/RunC10.v.beautified Run/RunC10.required_vo: Run/RunC10.v Base.vo Prim.vo Model/Parse.vo Model/ParseRun.vo Run/RunBase.vo
+Run/RunC10.vio: Run/RunC10.v Base.vio Prim.vio Model/Parse.vio Model/ParseRun.vio Run/RunBase.vio
+Run/RunC10.vos Run/RunC10.vok Run/RunC10.required_vos: Run/RunC10.v Base.vos Prim.vos Model/Parse.vos Model/ParseRun.vos Run/RunBase.vos
+Properties/C10.vo Properties/C10.glob Properties/C10.v.beautified Properties/C10.required_vo: Properties/C10.v Base.vo Prim.vo
+Properties/C10.vio: Properties/C10.v Base.vio Prim.vio
+Properties/C10.vos Properties/C10.vok Properties/C10.required_vos: Properties/C10.v Base.vos Prim.vos
